@@ -139,6 +139,31 @@ fn overlay_plans(tier: Tier) -> Vec<Plan> {
     v
 }
 
+/// Write handles kept open across other calls (C03, C05): the handle is part of the state.
+fn session_plans(tier: Tier) -> Vec<Plan> {
+    let us = Universe::new("U_sess{a,a/f,b}", &["/a", "/a/f", "/b"]);
+    let mut al = alphabet(us.clone(), &W1, 1, true);
+    al.sessions = true;
+    let mut v = vec![
+        plain(Cfg::Mem, Order::Asc, al.clone()),
+        plain(Cfg::Phys, Order::Asc, al.clone()),
+        plain(Cfg::alt(Cfg::Mem, "/Z"), Order::Asc, al.clone()),
+    ];
+    // overlays: primitives only in the quick tier (the composites multiply the marker states)
+    let mut alp = alphabet(us.clone(), &W1, 1, tier == Tier::Thorough);
+    alp.sessions = true;
+    v.push(populated(mem2(), Order::Asc, alp, &Universe::new("U2{a,a/f}", &["/a", "/a/f"]), false));
+    if tier == Tier::Thorough {
+        let mut a3 = alphabet(u3(), &W2, 2, true);
+        a3.sessions = true;
+        v.push(plain(Cfg::Mem, Order::Desc, a3.clone()));
+        v.push(plain(Cfg::alt(Cfg::Phys, "/Z"), Order::Asc, al.clone()));
+        v.push(populated(Cfg::Ov(vec![Cfg::Mem, Cfg::Mem, Cfg::Mem]), Order::Asc, al.clone(), &Universe::new("U2{a,a/f}", &["/a", "/a/f"]), false));
+        v.push(populated(phys2(), Order::Asc, al.clone(), &Universe::new("U2{a,a/f}", &["/a", "/a/f"]), false));
+    }
+    v
+}
+
 struct Spec {
     domain: Domain,
     mon: Monitors,
@@ -205,6 +230,7 @@ fn spec_for(id: &str, tier: Tier) -> Spec {
         "C03" => {
             let mut plans = base_plans(tier);
             plans.extend(overlay_plans(tier));
+            plans.extend(session_plans(tier));
             Spec {
                 domain: Domain::Unrestricted { root_removal: false },
                 mon: Monitors {
@@ -220,6 +246,7 @@ fn spec_for(id: &str, tier: Tier) -> Spec {
         "C05" => {
             let mut plans = base_plans(tier);
             plans.extend(overlay_plans(tier));
+            plans.extend(session_plans(tier));
             Spec {
                 domain: Domain::Unrestricted { root_removal: false },
                 mon: Monitors {
@@ -389,11 +416,11 @@ pub fn replay(v: &serde_json::Value) -> i32 {
         let b = build(&cfg, order, &init);
         let mut lines = vec![];
         for op in &hist {
-            let o = apply(&b.root, op);
+            let o = crate::tree::apply_sess(&b, op);
             lines.push(format!("{} -> {}", op.show(), o.short()));
         }
         if let Some(op) = &call {
-            let o = apply(&b.root, op);
+            let o = crate::tree::apply_sess(&b, op);
             lines.push(format!("CALL {} -> {}", op.show(), o.short()));
         }
         let probes: Vec<String> = u22().paths.iter().chain(u_names().paths.iter()).cloned().collect();
